@@ -92,8 +92,9 @@ func (s *sharedEntryAttributes) toJsonInternal(onlyNewOrUpdated bool, ietf bool)
 				if s.leafVariants.shouldDelete() {
 					return nil, nil
 				}
-				le := s.leafVariants.GetHighestPrecedence(false, false)
-				if onlyNewOrUpdated && !(le.IsNew || le.IsUpdated) {
+				// the same criterion as for leafs: new, updated, or not (yet) present in running;
+				// a presence container that only holds defaults might carry no value of its own at all
+				if le := s.leafVariants.GetHighestPrecedence(true, false); le == nil {
 					return nil, nil
 				}
 			}
